@@ -1048,6 +1048,7 @@ refine_body_stmt :
     | config_stmt 
     | mandatory_stmt
     | must_stmt
+    | presence_stmt
     | max_elements
     | min_elements
     | unknown_stmt
